@@ -96,6 +96,16 @@ CLAIMED = {
         note=("trusts CrossHair/z3 and the in-memory store model; <= 1 (quick) / 2 (thorough) names per list; objects "
               "inside containers and load-time type skipping are outside, as the property states"),
         design_ref="DESIGN.md §5 C14"),
+    "C18": dict(
+        engine="S",
+        technique="term-valued symbolic execution of the real COM code (torch via __torch_function__, NumPy via facade) on symbolic positive intensities/masks; z3 decides equality with the weighted-mean oracle, batch/path independence, immutability, integer shift == roll",
+        text=("bounded model checking by symbolic execution: for every enumerated scan/detector shape and every batch size the "
+              "origin model returns (sum I*row/sum I, sum I*col/sum I); the dataset model returns the same pair in the same "
+              "order on the vectorised and the looped path, with and without a mask, and does not modify its input; constant "
+              "fit returns the mean; shift_origin_to with integer origins equals the circular roll (all cell positions)"),
+        note=("real arithmetic; grid_sample is a bilinear model evaluated at the concrete grid; plane/parabola fits "
+              "(curve_fit/eigh), bicubic mode and non-integer origins are outside"),
+        design_ref="DESIGN.md §5 C18"),
     "C19": dict(
         engine="X",
         technique="CrossHair symbolic execution of the real config functions (z3), reference-model post-conditions, counterexample replay",
